@@ -103,7 +103,9 @@ func errName(err error) string {
 		return "unavailable"
 	case errors.Is(err, websockethub.ErrClientDisconnected):
 		return "disconnected"
-	case errors.Is(err, context.Canceled), errors.Is(err, context.DeadlineExceeded):
+	case errors.Is(err, context.DeadlineExceeded):
+		return "timeout" // the driver's own bound on a call (25 s): the call hung
+	case errors.Is(err, context.Canceled):
 		return "canceled"
 	}
 	return "other:" + err.Error()
@@ -242,17 +244,26 @@ func (r *hubRun) send(sender, c int, dd bool) {
 	r.lg.add(core.Ev{"op": "qe", "c": c, "m": m, "err": errName(err)})
 }
 
+// closeConn closes the dialling side of a connection.  (nhooyr.io/websocket v1.8.10: Close / CloseNow wait on the
+// connection's WaitGroup while a concurrent reader that notices the end of the connection adds to it - now and then
+// this panics with "WaitGroup is reused before previous Wait has returned" in the closing goroutine; that is a defect
+// of the library on the TEST side of the connection, nothing the hub is judged by.)
+func closeConn(conn *websocket.Conn, abrupt bool) {
+	defer func() { _ = recover() }()
+	if abrupt {
+		_ = conn.CloseNow()
+	} else {
+		_ = conn.Close(websocket.StatusNormalClosure, "")
+	}
+}
+
 func (r *hubRun) closeClient(c int, abrupt bool) {
 	hc := r.clients[c-1]
 	if hc.conn == nil || !hc.closed.CompareAndSwap(false, true) {
 		return
 	}
 	r.lg.atomically(func() core.Ev { hc.gone.Store(true); return core.Ev{"op": "cb", "c": c} })
-	if abrupt {
-		_ = hc.conn.CloseNow()
-	} else {
-		_ = hc.conn.Close(websocket.StatusNormalClosure, "")
-	}
+	closeConn(hc.conn, abrupt)
 	r.lg.add(core.Ev{"op": "ce", "c": c})
 }
 
@@ -297,9 +308,12 @@ func (r *hubRun) finish(tf *traceFile, cfg core.Ev, workers *xgroup, doSync bool
 	var hungW []any
 	if doSync {
 		if hungW = workers.join(xJoinWait + 10*time.Second); len(hungW) == 0 {
-			if !waitFor(hubWait, r.settled) && os.Getenv("X4_HUB_DUMP") != "" {
-				buf := make([]byte, 1<<20)
-				fmt.Fprintf(os.Stderr, "hub not settled after %v; goroutines:\n%s\n", hubWait, buf[:runtime.Stack(buf, true)])
+			if !waitFor(hubWait, r.settled) {
+				xHung = true // deliveries / removals that never happen: "sync" shows it; no further executions
+				if os.Getenv("X4_HUB_DUMP") != "" {
+					buf := make([]byte, 1<<20)
+					fmt.Fprintf(os.Stderr, "hub not settled after %v; goroutines:\n%s\n", hubWait, buf[:runtime.Stack(buf, true)])
+				}
 			}
 			r.lg.add(core.Ev{"op": "sync"})
 		}
@@ -317,7 +331,7 @@ func (r *hubRun) finish(tf *traceFile, cfg core.Ev, workers *xgroup, doSync bool
 	go func() {
 		for _, hc := range r.clients {
 			if hc.conn != nil && hc.closed.CompareAndSwap(false, true) {
-				_ = hc.conn.CloseNow()
+				closeConn(hc.conn, true)
 			}
 		}
 		close(closed)
@@ -366,6 +380,9 @@ func hubTrace(tf *traceFile, rd *rand.Rand, sc string) int {
 	}
 	r.run()
 	first := 1 + rd.Intn(nc)
+	if sc == "abrupt" && first < 3 {
+		first = 3
+	}
 	for c := 1; c <= first; c++ {
 		r.dial(c)
 	}
@@ -378,6 +395,9 @@ func hubTrace(tf *traceFile, rd *rand.Rand, sc string) int {
 		return true
 	})
 	nmsg := 4 + rd.Intn(10)
+	if sc == "abrupt" { // enough traffic for the write pumps to run into the closed connections
+		nmsg = 16 + rd.Intn(10)
+	}
 	for s := 1; s <= 2; s++ {
 		s, yields := s, rd.Intn(4)
 		dds := make([]bool, nmsg)
@@ -415,11 +435,8 @@ func hubTrace(tf *traceFile, rd *rand.Rand, sc string) int {
 	}
 	switch sc {
 	case "abrupt":
-		k := 2 + rd.Intn(2)
-		if k > first {
-			k = first
-		}
-		d := time.Duration(rd.Intn(1500)) * time.Microsecond
+		k := first - rd.Intn(2)
+		d := time.Duration(rd.Intn(900)) * time.Microsecond
 		start := make(chan struct{})
 		for c := 1; c <= k; c++ {
 			c := c
